@@ -229,6 +229,21 @@ func chanUses(f *ssa.Function, p *ssa.Parameter, dir types.ChanDir) []string {
 						if s.Name == "builtin.len" || s.Name == "builtin.cap" {
 							continue
 						}
+						// handed to a helper that itself uses it in the right direction only
+						if g := s.Callee; g != nil && g.Parent() == nil && len(g.Blocks) > 0 && g != f {
+							k := -1
+							for i, ca := range s.Common().Args {
+								if ca == a {
+									k = i
+								}
+							}
+							off := len(s.Common().Args) - len(g.Params)
+							if k-off >= 0 && k-off < len(g.Params) && off >= 0 {
+								if sub := chanUses(g, g.Params[k-off], dir); len(sub) == 0 {
+									continue
+								}
+							}
+						}
 						bad = append(bad, "passed to "+s.Name)
 					}
 				}
@@ -554,6 +569,36 @@ func sentValues(f *ssa.Function, p *ssa.Parameter) (vals []ssa.Value, at []ssa.I
 			}
 		}
 	}
+	// sends made by a named helper the channel is handed to: the value is one of its parameters
+	for _, s := range core.Sites(f, false) {
+		g := s.Callee
+		if g == nil || g.Parent() != nil || len(g.Blocks) == 0 || g == f || s.Instr.Parent() != f {
+			continue
+		}
+		args := s.Common().Args
+		if len(args) != len(g.Params) {
+			continue
+		}
+		kc := -1
+		for i, a := range args {
+			if isParam(p)(a) {
+				kc = i
+			}
+		}
+		if kc < 0 {
+			continue
+		}
+		gv, _ := sentValuesIn(g, g.Params[kc])
+		for _, v := range gv {
+			v = core.Unwrap(v)
+			for i, par := range g.Params {
+				if ssa.Value(par) == v {
+					vals = append(vals, args[i])
+					at = append(at, s.Instr)
+				}
+			}
+		}
+	}
 	v2, a2 := sentValuesIn(f, p)
 	return append(vals, v2...), append(at, a2...)
 }
@@ -744,14 +789,14 @@ func ruleParserRemovals(w *core.World, r *core.Report) {
 		for _, in := range p.Instrs {
 			sel, ok := in.(*ssa.Select)
 			if !ok {
-				if sd, ok := in.(*ssa.Send); ok && isParam(sb)(sd.Chan) {
+				if sd, ok := in.(*ssa.Send); ok && (isParam(sb)(sd.Chan) || isParam(sb)(p.Resolve(sd.Chan))) {
 					sends++
 					return
 				}
 				continue
 			}
 			for k, st := range sel.States {
-				if st.Dir == types.SendOnly && isParam(sb)(st.Chan) {
+				if st.Dir == types.SendOnly && (isParam(sb)(st.Chan) || isParam(sb)(p.Resolve(st.Chan))) {
 					kk := int64(k)
 					if p.Holds(token.EQL, func(v ssa.Value) bool {
 						e, ok := v.(*ssa.Extract)
